@@ -314,3 +314,16 @@ class GenericAlias:
 
     def __deepcopy__(self, memo):
         return self
+
+
+class NumStr:
+    """A string that is the fixed-width rendering of a (symbolic) non-negative integer: format(n, '0<width>b') (base 2)
+    or format(n, '0<width>X') (base 16).  Only the operations the DHT code uses are supported."""
+
+    def __init__(self, n, width, base):
+        self.n = n            # engine value (int or Sym int)
+        self.width = width    # minimum number of digits (zero padded)
+        self.base = base
+
+    def __deepcopy__(self, memo):
+        return self
